@@ -1,0 +1,53 @@
+//go:build verif
+
+package reporter
+
+import (
+	"github.com/google/go-github/v71/github"
+	gitlab "gitlab.com/gitlab-org/api/client-go"
+
+	"github.com/cloudflare/pint/internal/checks"
+)
+
+// Accessors used by the verification harness (build tag verif only) so that a stateful Commenter
+// can be implemented outside of this package. Nothing here changes behaviour.
+
+// VerifNewExistingComment builds an ExistingComment as a Commenter.List implementation would.
+func VerifNewExistingComment(meta any, path, text string, line int) ExistingComment {
+	return ExistingComment{meta: meta, path: path, text: text, line: line}
+}
+
+// VerifExistingFields returns the fields of an ExistingComment.
+func VerifExistingFields(e ExistingComment) (meta any, path, text string, line int) {
+	return e.meta, e.path, e.text, e.line
+}
+
+// VerifNewPendingComment builds a PendingComment.
+func VerifNewPendingComment(path, text string, line int, anchor checks.Anchor) PendingComment {
+	return PendingComment{path: path, text: text, line: line, anchor: anchor}
+}
+
+// VerifPendingFields returns the fields of a PendingComment.
+func VerifPendingFields(p PendingComment) (path, text string, line int, anchor checks.Anchor) {
+	return p.path, p.text, p.line, p.anchor
+}
+
+// VerifMakeComments exposes makeComments (the pending comments Submit will reconcile).
+func VerifMakeComments(s Summary, showDuplicates bool) []PendingComment {
+	return makeComments(s, showDuplicates)
+}
+
+// VerifGithubDestination builds the destination value GithubReporter methods expect.
+func VerifGithubDestination(files []*github.CommitFile) any {
+	return ghPR{files: files}
+}
+
+// VerifGithubFixCommentLine exposes the side/line GithubReporter.Create sends for a pending comment.
+func VerifGithubFixCommentLine(gr GithubReporter, dst any, p PendingComment) (string, int) {
+	return gr.fixCommentLine(dst, p)
+}
+
+// VerifGitlabDestination builds the destination value GitLabReporter methods expect.
+func VerifGitlabDestination(userID, mrID int, version *gitlab.MergeRequestDiffVersion, diffs []*gitlab.MergeRequestDiff) any {
+	return gitlabMR{version: version, diffs: diffs, userID: userID, mrID: mrID}
+}
